@@ -27,7 +27,9 @@
 EXTENDS Naturals, Integers, Sequences, FiniteSets
 
 CONSTANTS MaxE,      \* energies explored by the model checker: 0..MaxE
-          MaxMol     \* number of molecules explored
+          MaxMol,    \* number of molecules explored
+          MaxSol,    \* number of distinct solutions the initial individuals hold (1: everybody holds the same point)
+          MaxBelow   \* populations underneath the reaction's population: 0..MaxBelow
 
 VARIABLES pe, ke, sol, buffer, below, h, act, res
 cvars == <<pe, ke, sol, buffer, below, h, act, res>>
@@ -116,15 +118,15 @@ Prepare == /\ h = below + 1 /\ h' = h + 2 /\ act' = A("prepare", 0, 0, 0, 0) /\ 
            /\ UNCHANGED <<pe, ke, sol, buffer, below>>
 
 E == 0..MaxE
-\* which individuals share a solution: every partition of the positions into at most two classes (named in order of
+\* which individuals share a solution: every partition of the positions into at most MaxSol classes (named in order of
 \* first occurrence -- the names themselves mean nothing)
-Sols == 1..2
-SolPattern(q) == q[1] = 1 /\ \A i \in 2..Len(q) : q[i] = 2 => \E j \in 1..(i - 1) : q[j] = 1
+Sols == 1..MaxSol
+SolPattern(q) == q[1] = 1 /\ \A i \in 2..Len(q) : q[i] > 1 => \E j \in 1..(i - 1) : q[j] = q[i] - 1
 CInit == /\ pe \in UNION {[1..n -> E] : n \in 1..MaxMol}
          /\ ke \in [1..Len(pe) -> E]
          /\ sol \in {q \in [1..Len(pe) -> Sols] : SolPattern(q)}
          /\ buffer \in E
-         /\ below \in 0..1
+         /\ below \in 0..MaxBelow
          /\ h = below + 1 /\ act = A("init", 0, 0, 0, 0) /\ res = [k |-> "ok"]
 Bounded == /\ N <= MaxMol /\ buffer <= 3 * MaxE
            /\ \A i \in 1..N : ke[i] <= 3 * MaxE
